@@ -45,6 +45,18 @@ class Sym:
         raise SymMisuse("len() of symbolic value")
 
 
+class SymProto(Sym):
+    """symbolic container implementing its own protocol through optional methods
+    vf_getitem(interp, idx) / vf_setitem(interp, idx, v) / vf_contains(interp, x) / vf_method(interp, name, args, kwargs) /
+    vf_len(interp) / vf_view(interp) -> loops.IterView / vf_truth() -> z3 Bool; anything not provided fails closed"""
+
+    def _vf(self, name):
+        m = getattr(self, name, None)
+        if m is None:
+            raise Unsupported(f"{type(self).__name__} does not model {name[3:]}")
+        return m
+
+
 class SInt(Sym):
     def __init__(self, t):
         self.t = t if z3.is_expr(t) else z3.IntVal(t)
